@@ -390,6 +390,42 @@ class TableUnroll(ast.NodeTransformer):
             return it.elts
         return None
 
+    def visit_Call(self, node):
+        """any(E for a in <literal table>) -> E[a1] or E[a2] ...;  all(..) -> and;  getattr(x, '<name>') -> x.<name>"""
+        self.generic_visit(node)
+        f = node.func
+        if isinstance(f, ast.Name) and f.id in ('any', 'all') and len(node.args) == 1 and not node.keywords and \
+                isinstance(node.args[0], (ast.GeneratorExp, ast.ListComp)) and len(node.args[0].generators) == 1:
+            gen = node.args[0].generators[0]
+            rows = self._table(gen.iter)
+            if rows is not None and not gen.is_async and len(rows) <= 12:
+                if isinstance(gen.target, ast.Name):
+                    maps = [{gen.target.id: r} for r in rows]
+                elif isinstance(gen.target, (ast.Tuple, ast.List)) and all(isinstance(e, ast.Name) for e in gen.target.elts) and \
+                        all(isinstance(r, (ast.Tuple, ast.List)) and len(r.elts) == len(gen.target.elts) for r in rows):
+                    maps = [dict(zip([e.id for e in gen.target.elts], r.elts)) for r in rows]
+                else:
+                    maps = None
+                if maps is not None:
+                    terms = []
+                    for m in maps:
+                        e = _SubstTable(m).visit(copy_tree(node.args[0].elt))
+                        conds = [_SubstTable(m).visit(copy_tree(c)) for c in gen.ifs]
+                        if conds:
+                            if f.id == 'any':
+                                e = ast.BoolOp(op=ast.And(), values=conds + [e])
+                            else:       # all: a filtered-out element counts as true
+                                e = ast.BoolOp(op=ast.Or(), values=[ast.UnaryOp(op=ast.Not(), operand=ast.BoolOp(op=ast.And(), values=conds) if len(conds) > 1 else conds[0]), e])
+                        terms.append(e)
+                    new = terms[0] if len(terms) == 1 else ast.BoolOp(op=ast.Or() if f.id == 'any' else ast.And(), values=terms)
+                    # any()/all() return a bool; as an operand of and/or the last element's own value would come through instead
+                    new = ast.Call(func=ast.Name(id='bool', ctx=ast.Load()), args=[new], keywords=[])
+                    return ast.copy_location(self.generic_visit(ast.fix_missing_locations(ast.copy_location(new, node))), node)
+        if isinstance(f, ast.Name) and f.id == 'getattr' and len(node.args) == 2 and not node.keywords and isinstance(node.args[1], ast.Constant) and \
+                isinstance(node.args[1].value, str) and node.args[1].value.isidentifier():
+            return ast.copy_location(ast.Attribute(value=node.args[0], attr=node.args[1].value, ctx=ast.Load()), node)
+        return node
+
     def visit_FunctionDef(self, fn):
         self.generic_visit(fn)
         loads = {}
